@@ -49,7 +49,8 @@ FILES = [
 ]
 REQUIRED_THEOREMS = ["C14_frame_rng", "C14_frame_rng_unchanged", "C14_seeded_determinism", "C14_read_only_step",
                      "C14_read_only", "C14_read_only_skeleton", "C14_draw_count", "C14_draw_count_closed_forms",
-                     "C14_different_seed_partial", "C14_seed_accepted", "C14_seed_rejected", "C14_same_stream_same_results"]
+                     "C14_different_seed_partial", "C14_seed_accepted", "C14_seed_rejected", "C14_same_stream_same_results",
+                     "C14_read_only_ops_ext", "C14_fit_evaluator_calls", "C14_fit_evaluator_draws", "C14_eval_epochs_closed"]
 EXTRA_TRUSTED = [
     "C14 is PARTIAL: bit-identity across runs rests on the determinism of torch's CPU kernels (single thread) and "
     "'different seed => different draws' on torch's PRNG; both are only observed by the three-process replay, not proved",
@@ -70,7 +71,10 @@ RULE = ("case = one history: [different per-run prefix: foreign numpy/random see
         "optimizer, bases for complex/mixed), eval, metrics (fidelity/KL/NLL), rotate_*, gradient methods, "
         "compute_batch_gradients, save, load} with foreign numpy/random draws interleaved differently per run, plus fixed "
         "malformed histories (missing slot, num_samples=0, pos_batch_size=0, missing bases, no reference-basis rows, "
-        "missing file); every generated history applies every class of operation at least once to its first object "
+        "missing file); every generated history applies EVERY operation class of the API table (one per public callable found by "
+        "introspection: amplitude, phase, rho(v,v'), pi, pi_grad, am_grads, ph_grads, importance_sampling_*, subspace_vector, composite observables, "
+        "Observable.sample, System.statistics_from_samples, sample/statistics(overwrite=True), save(metadata=), rotate_*(psi=/rho=, unitaries=None, "
+        "include_extras), fit with an ObservableEvaluator callback / scheduler / time) at least once to its first object "
         "(kind cycling pos/cplx/dens), every third one builds an unseeded object before the seeding (parameters compared "
         "from slot b=1); non-trivial iff it contains a fit and (a statistics call or a save/load pair or >= 2 state kinds) "
         "and runs 1 and 2 each contain >= 2 foreign operations; distinct by hash of the three op lists")
